@@ -2005,6 +2005,13 @@ class FnEval:
             if "bstr" in path or "ByteSlice" in path:
                 return I(T(S(BYTE, None, "pos"), S(BYTE, None, "pos"), S("Char")))
             return I(T(S(BYTE, None, "pos"), S("Char")))
+        if name in ("grapheme_indices", "word_indices", "words_with_break_indices", "sentence_indices", "line_indices") and \
+                ("bstr" in path or "ByteSlice" in path):
+            # bstr's *_indices iterators: (start byte offset, end byte offset, decoded piece)
+            return I(T(S(BYTE, None, "pos"), S(BYTE, None, "pos"), S("Text")))
+        if name in ("grapheme_indices", "split_word_bound_indices", "unicode_word_indices", "char_indices") and \
+                "unicode_segmentation" in path:
+            return I(T(S(BYTE, None, "pos"), S("Text")))
         if path == "text::abstraction::DiffableStr::slice" or (name == "slice" and trait == "text::abstraction::DiffableStr"):
             want = R(S(BYTE), S(BYTE))
             if rest:
